@@ -421,9 +421,10 @@ func (p *parser) chrAt(index int) chr { //nolint:unused
 	}
 }
 
+// peek returns the character after p.chr (p.offset is where the next read starts).
 func (p *parser) peek() rune {
-	if p.offset+1 < p.length {
-		return rune(p.str[p.offset+1])
+	if p.offset < p.length {
+		return rune(p.str[p.offset])
 	}
 	return -1
 }
